@@ -66,6 +66,22 @@ func (p *Prog) VerifyFunc(fi *FuncInfo, spec *FuncSpec) (res *FuncResult) {
 		if r2.Err == nil {
 			r2.Spec = spec
 			r2.Notes = append(r2.Notes, fmt.Sprintf("proof annotations of %s do not apply to the current code (%v): verified with loop invariants/anchors dropped; failures count only with a replayed counterexample", fi.Key, first))
+			// `assert @anchor` clauses are claims, not only proof hints: when they can no longer be stated on the
+			// code (an anchor or a name they use has disappeared) the claim is not established
+			n := 0
+			for _, c := range spec.Asserts {
+				if c.Kind != "assert" {
+					continue
+				}
+				n++
+				props := c.Props
+				if props == nil {
+					props = spec.Serves
+				}
+				why := fmt.Sprintf("the clause `assert @%s: %s` of %s can no longer be stated on the current code (%v)", c.Name, c.Text, fi.Key, first)
+				r2.Obls = append(r2.Obls, &Obligation{Name: fmt.Sprintf("%s/contract-verifiable/assert%d", fi.Key, n), Kind: "contract-verifiable", Props: props, Func: fi.FullKey(),
+					Text: why, Where: c.Where, Goal: "false", Result: &SolveResult{Status: "unknown", Backend: "none", Output: why, All: map[string]string{}}})
+			}
 			return r2
 		}
 	}
